@@ -86,7 +86,15 @@ def opSame : Handler := fun args impl =>
   match args.mapM parseMat? with
   | some [a, b] =>
     let same := NTV.Hnf.hnfNew a == NTV.Hnf.hnfNew b
-    (if same then "1" else "0", verdict (impl == "1") "same-lattice-different-normal-form")
+    -- independent decision: the two row lattices contain one another (membership by back-substitution
+    -- in the proved normal forms)
+    let v := match NTV.Hnf.hnfNew a, NTV.Hnf.hnfNew b with
+      | some ha, some hb =>
+        let sameLat := S.cols a == S.cols b && a.all (S.inSpanHNF hb) && b.all (S.inSpanHNF ha)
+        if sameLat then verdict (impl == "1") "same-lattice-different-normal-form"
+        else verdict (impl == "0") "different-lattices-compare-equal"
+      | _, _ => "skip:inconclusive"
+    (if same then "1" else "0", v)
   | _ => bad
 
 /-- `union A B` ⇒ HNF of the stacked generators (inputs are HNFs) -/
